@@ -12,6 +12,7 @@ import (
 	"os"
 	"sort"
 	"strings"
+	"time"
 )
 
 type Violation struct {
@@ -119,12 +120,16 @@ func b01(b bool) string {
 
 var props = map[string]func(*Run){}
 
+var clientProps = map[string]bool{"C05": true, "C06": true, "C07": true, "C08": true, "C12": true, "C13": true, "C14": true,
+	"C15": true, "C16": true, "C17": true, "C20": true}
+
 func main() {
 	tier := flag.String("tier", "quick", "quick|thorough")
 	seed := flag.Uint64("seed", 1, "PRNG seed")
 	out := flag.String("out", "", "case file")
 	stats := flag.String("stats", "", "stats json")
 	replay := flag.String("replay", "", "replay file (property specific)")
+	watchdog := flag.Int("watchdog", 0, "suite watchdog in seconds (0 = default per tier for client properties)")
 	flag.Parse()
 	if flag.NArg() < 1 {
 		fmt.Fprintln(os.Stderr, "usage: vharness [flags] <property>")
@@ -150,7 +155,28 @@ func main() {
 	}
 	r := &Run{w: w, tier: *tier, rng: NewRNG(*seed), distinct: map[string]struct{}{},
 		st: &Stats{Property: strings.ToUpper(prop), Tier: *tier, Seed: *seed, Dist: map[string]int{}, Violations: []Violation{}, Samples: []string{}}}
-	f(r)
+	// client scenario suites run under a suite watchdog: a hang (a call, a Close or a recovery that never
+	// returns - possibly inside the harness' own clean-up, e.g. Close waiting for a lock a stuck dial holds) is
+	// reported with the library goroutines' stacks instead of waiting for the caller's timeout
+	limit := time.Duration(*watchdog) * time.Second
+	if *watchdog == 0 && clientProps[strings.ToUpper(prop)] {
+		limit = 480 * time.Second
+		if *tier == "thorough" {
+			limit = 3000 * time.Second
+		}
+	}
+	if limit == 0 {
+		f(r)
+	} else {
+		done := make(chan struct{})
+		go func() { f(r); close(done) }()
+		select {
+		case <-done:
+		case <-time.After(limit):
+			r.violate(Violation{What: fmt.Sprintf("the scenario suite did not finish within %v: a library call never returned", limit),
+				Case: "suite watchdog; stacks of goroutines inside the client library attached", Extra: libStacks(12000)})
+		}
+	}
 	w.Flush()
 	r.st.Distinct = len(r.distinct)
 	if *stats != "" {
